@@ -22,8 +22,8 @@ REPO = os.environ.get("FERROUS_REPO", "/repo")
 LEAN = os.path.join(VERIF, "lean")
 CACHE = os.path.join(VERIF, ".cache")
 HARNESS = os.path.join(VERIF, "harness")
-DRIVER = os.path.join(LEAN, ".lake", "build", "bin", "driver")
-IMPL_DRIVER = os.path.join(CACHE, "target-harness", "debug", "impl_driver")
+LEAN_BIN = os.path.join(LEAN, ".lake", "build", "bin")
+IMPL_BIN = os.path.join(CACHE, "target-harness", "debug")
 SERVER_BIN = os.path.join(CACHE, "target-bin", "debug", "ferrous")
 REPLAYS = os.path.join(VERIF, "replays")
 EVIDENCE = os.path.join(VERIF, "evidence")
@@ -107,7 +107,7 @@ def unhx(s: str) -> bytes:
 class BuildLock:
     def __init__(self, name):
         os.makedirs(CACHE, exist_ok=True)
-        self.path = os.path.join(CACHE, name + ".lock")
+        self.path = os.path.join(CACHE, name + ".lock")   # "lean.lock" is shared with tools/lake-locked
 
     def __enter__(self):
         self.f = open(self.path, "w")
@@ -140,10 +140,10 @@ def lake_build(targets, timeout=3600):
     return rc == 0, out
 
 
-def build_driver():
-    ok, out = lake_build(["driver"])
+def build_driver(family):
+    ok, out = lake_build(["drv_" + family])
     if not ok:
-        raise InternalError("Lean driver does not build:\n" + out[-4000:])
+        raise InternalError("Lean driver drv_%s does not build:\n%s" % (family, out[-4000:]))
 
 
 def theorem_names(prop_id):
@@ -216,13 +216,14 @@ def audit_axioms(prop_id, names):
     return res
 
 
-def build_harness():
+def build_harness(family):
+    """The in-process implementation driver `impl_<family>` against /repo's working tree."""
     with BuildLock("cargo-harness"):
         lock_src = os.path.join(REPO, "Cargo.lock")
         lock_dst = os.path.join(HARNESS, "Cargo.lock")
         if not os.path.exists(lock_dst):
             shutil.copy(lock_src, lock_dst)
-        rc, out = run(["cargo", "build", "--offline", "--quiet"], cwd=HARNESS)
+        rc, out = run(["cargo", "build", "--offline", "--quiet", "--bin", "impl_" + family], cwd=HARNESS)
     if rc != 0:
         raise InternalError("harness does not build against /repo:\n" + out[-4000:])
 
@@ -297,11 +298,11 @@ class LineProc:
 
 
 def lean_driver(family):
-    return LineProc([DRIVER, family], "lean-" + family)
+    return LineProc([os.path.join(LEAN_BIN, "drv_" + family)], "lean-" + family)
 
 
 def impl_driver(family):
-    return LineProc([IMPL_DRIVER, family], "impl-" + family)
+    return LineProc([os.path.join(IMPL_BIN, "impl_" + family)], "impl-" + family)
 
 
 # --------------------------------------------------------------------------
@@ -407,13 +408,14 @@ class Report:
         return 0
 
 
-def proof_phase(rep, extra_targets=()):
+def proof_phase(rep, families=(), extra_targets=()):
     """Translator, Lean build of the property module, forbidden-token grep and axiom audit.
 
     Returns (ok, log).  On failure the caller enters the search phase of the
     violation protocol (DESIGN 2.5)."""
     run_translator()
-    build_driver()
+    for fam in families:
+        build_driver(fam)
     pid = rep.prop_id
     rep.obligations = theorem_names(pid)
     ok, out = lake_build(["FerrousSpec.Props." + pid] + list(extra_targets))
